@@ -31,8 +31,8 @@ STREAMS = {
 }
 
 
-def knobs():
-    return nested.NKnobs(max_states=9, max_depth=3, max_history=8, p_cmds=0.0, p_queued=0.0, p_unknown_event=0.08,
+def knobs(p_local=0.3):
+    return nested.NKnobs(p_local=p_local, max_states=9, max_depth=3, max_history=8, p_cmds=0.0, p_queued=0.0, p_unknown_event=0.08,
                          p_cond_false=0.3, max_trans=3)
 
 
@@ -56,8 +56,9 @@ def solo(d):
     return not any(cmds and c in multi for (c, _k), (cmds, _o) in d.script.items())
 
 
-def decorate(d, rng, queued):
-    """turn a generated hierarchical description into a C05 case (in place)"""
+def decorate(d, rng, queued, root_only=False):
+    """turn a generated hierarchical description into a C05 case (in place); `root_only`: no on_enter / on_exit
+    callback triggers events (see `modelled`)"""
     d.queued = queued
 
     def new_cb(slot):
@@ -82,7 +83,8 @@ def decorate(d, rng, queued):
                 out = ('raise', 4 if rng.random() < 0.3 else 3, rng.randrange(3))
             elif c not in cond and out == ('ret', True) and rng.random() < 0.3:
                 out = ('ret', False)           # return values of non-condition callbacks are ignored
-            if budget[0] > 0 and rng.random() < p_cmd:
+            if budget[0] > 0 and rng.random() < p_cmd and not (
+                    root_only and d.cb_slot[c] in (SLOT['on_enter'], SLOT['on_exit'])):
                 n = rng.randint(1, min(2, budget[0]))
                 cmds = [(flat.TRIGGER, 0, rng.choice(known) if rng.random() > 0.07 else unknown) for _ in range(n)]
                 budget[0] -= n
@@ -94,8 +96,12 @@ def decorate(d, rng, queued):
 
 
 def gen(stream, rng):
-    d = nested.gen_nested(rng, knobs())
-    return decorate(d, rng, STREAMS[stream]['queued'])
+    queued = STREAMS[stream]['queued']
+    # unqueued: two thirds of the cases inside the domain of the model tie (machine-level declarations, events
+    # triggered from root-scope callbacks), one third anywhere (judged by the immediacy oracle)
+    root_only = (not queued) and rng.random() < 0.67
+    d = nested.gen_nested(rng, knobs(p_local=0.0 if root_only else 0.3))
+    return decorate(d, rng, queued, root_only)
 
 
 # ---------------------------------------------------------------------------------------------
@@ -165,15 +171,23 @@ def deferred(items):
 # ---------------------------------------------------------------------------------------------
 
 def modelled(d):
-    """the domain of the model tie on UNQUEUED machines: no on_enter / on_exit callback triggers events.  Those
-    callbacks run while the machine is scoped into their state (`NestedState.scoped_enter/exit`), so an event they
-    trigger is dispatched relative to that scope (typically ValueError from `get_state`); `Model/Nested.lean` does not
-    model `_scope`.  The property itself is still judged on such runs (immediate_oracle).  On queued machines a
-    deferred event is processed later, from the top-level scope, and the tie holds for every slot."""
+    """the domain of the model tie on UNQUEUED machines: events are triggered only from callbacks that run at the
+    machine's root scope.  on_enter / on_exit callbacks run while the machine is scoped into their state
+    (`NestedState.scoped_enter/exit`), and every callback of an event declared INSIDE a state runs while the machine
+    is scoped into the declaring state (`with self(key)` in `_trigger_event_nested`); an event triggered from there is
+    dispatched relative to that scope (ValueError from `get_state`, AttributeError instead of MachineError from
+    `_check_event_result`).  `Model/Nested.lean` does not model the dynamic scope of the machine.  The property
+    itself is still judged on such runs (immediate_oracle).  On queued machines a deferred event is processed later,
+    from the root scope, and the tie holds for every slot."""
     if d.queued:
         return True
+    root_only = (SLOT['finalize_event'], SLOT['on_exception'])
     scoped = (SLOT['on_enter'], SLOT['on_exit'])
-    return not any(cmds and d.cb_slot[c] in scoped for (c, _k), (cmds, _o) in d.script.items())
+    local = any(n['local'] for _p, n in d.walk())
+    for (c, _k), (cmds, _o) in d.script.items():
+        if cmds and (d.cb_slot[c] in scoped or (local and d.cb_slot[c] not in root_only)):
+            return False
+    return True
 
 
 def classes_for(d):
@@ -256,6 +270,8 @@ def stats(st, stream, d, runs):
     bump('nested_classes_run', len(runs))
     bump('nested_triggers_from_callbacks', min(deferred(hm.items), 5))
     bump('nested_on_exception', int(bool(d.on_exception)))
+    if not d.queued:
+        bump('nested_unqueued_model_tie', ('tied' if modelled(d) else 'oracle-only') + (':nested-trigger' if deferred(hm.items) else ''))
     shape = 'single'
     for v in hm.states_after:
         if isinstance(v, list):
